@@ -6,7 +6,7 @@ package wal
 // Contracts for the deductive verifier in /verif (govc).  Comment-only file,
 // compiled only under the build tag `verif`.
 
-//@ property C05
+//@ property C05 C03
 
 // ---- frame header: low 56 bits = record length, top byte = 0x80|pad when padded (bit-precise, bv mode) ----
 
